@@ -165,6 +165,20 @@ def run(prop, tier, seed):
             if st_self is None:
                 st_self = selftest(prop, r['ndjson'], workdir)
             os.remove(r['ndjson'])
+        if prop in ('C05', 'C10'):
+            nd, nscen = S.run_scenarios(prop, tier, seed, workdir)
+            rej, vst = S.validate(nd, PROPSETS[prop])
+            job = {'wcfg': {'scenario': prop}, 'cfgline': {}}
+            nrej = S.judge(prop, rej, nd, job, v)
+            cov['configs'].append({'name': 'scenarios-' + prop, 'executions': nscen, 'trace_lines': vst.get('distinct', 1) - 1,
+                                   'rejected_lines': nrej,
+                                   'what': 'C05: configurations x session histories x peer OPEN variants + AS_PATH mode probe; '
+                                           'C10: structure-aware and mutation fuzz (seeds: every bytes literal of the unit tests) in OpenSent/OpenConfirm/Established + known-good probe'})
+            cov['traces_validated_against_impl'] += nscen
+            cov['lines_validated'] += vst.get('distinct', 1) - 1
+            with open(nd) as fh:
+                cov['samples'].append({'what': 'first lines of one scenario trace', 'lines': [json.loads(next(fh)) for _ in range(6)]})
+            os.remove(nd)
         ok, info = st_self
         cov['binding_selftest'] = {'rejected_as_required': ok, 'detail': info}
         if not ok:
